@@ -30,7 +30,8 @@ EXPLANATION = (
     'is pre-validated at construction. Floating-point finiteness is NOT '
     'decided.'
     ' Also decided, over all functions: numeric options and `x and x < c` range guards are not truth-tested (N0); possibly omitted hyper-parameters are only subscripted under a guard (N1); list-or-tuple parameters are lists before list concatenation (T3) and tuples before use as keys (T4); format strings get as many arguments as specifiers, tuple-valued operands included (F0); literals validated through .lower() are never compared raw (V3c); lattice pair constraints reject (d, d) (V9); divisions by data reductions are guarded or reviewed (D3); no loop variable is read after its loop (X6); constructor parameters are validated in every configuration, not only when other options create a constraint object (V1, guard-aware).'
-    ' Adjacent statements of identical shape vary consistently in their identifiers and role words (CP1, copy-paste slips).')
+    ' Adjacent statements of identical shape vary consistently in their identifiers and role words (CP1, copy-paste slips).'
+    ' Containers that collect what a validator has seen are created once, at the scope the reference gives them (S14), and what is evaluated for every element of an iteration reads the element (X9).')
 ASSUMPTIONS = [
     'ValueError raised inside verify_hyperparameters / canonicalize_* during '
     '__init__ or build is "rejected up front"',
